@@ -9,6 +9,7 @@ import importlib
 import json
 import multiprocessing as mp
 import os
+import re
 import subprocess
 import sys
 import time
@@ -289,6 +290,11 @@ def run_property(prop, jobs, tier, seed, meta, workers=None, level="model_checki
                 status, log = confirm(rep_path)
                 if status == "reproduced":
                     break
+            if status == "reproduced":
+                m = re.search(r"concrete-failure label=(.*?) \|\|cls=(.*?)\|\|", log)
+                if m:
+                    # reproduced under another obligation of the same harness: report and match known findings under that one
+                    key = (m.group(1), m.group(2))
             rec = dict(job=r["name"], label=key[0], cls=key[1], n=len(lst), status=status, replay=rep_path)
             if is_twin:
                 (twins_ok if status == "reproduced" else twins_bad).append(rec)
